@@ -23,7 +23,8 @@ def eig_calls(graph):
             alts = unwrap_gamma(f)
             names = {getattr(a.args[0], 'dotted', None) for a in alts if isinstance(a, T) and a.op == 'ref'}
             if names and names <= set(EIGH) | set(EIG):
-                out.append((t, bool(names & set(EIGH))))
+                # `solver = eig if use_eig else eigh`: the result is ordered only if every alternative orders it
+                out.append((t, names <= set(EIGH)))
     return out
 
 
@@ -44,6 +45,8 @@ def component_sources(t):
 def selections(graph):
     """single-eigenpair selections: dict(call, comp, index items, term)"""
     calls = {id(c): (c, srt) for c, srt in eig_calls(graph)}
+    # decompositions that only run inside an exception handler (fallback after a failed eigh) are exempt from the ordering rule
+    in_handler = {id(e.term) for e in graph.events if e.kind == 'call' and any(c.op == 'caught' for c, _ in e.guards)}
     sels = []
     seen = set()
     roots = [graph.ret] + [e.term for e in graph.events if e.term is not None]
@@ -57,7 +60,8 @@ def selections(graph):
                 continue
             idx = t.args[1]
             items = list(idx.args[0]) if idx.op == 'tuple' else [idx]
-            sels.append(dict(term=t, sources=hit, items=items, sorted=any(calls[id(c)][1] for c, _ in hit)))
+            regular = [c for c, _ in hit if id(c) not in in_handler] or [c for c, _ in hit]
+            sels.append(dict(term=t, sources=hit, items=items, sorted=all(calls[id(c)][1] for c in regular)))
     return sels
 
 
@@ -105,8 +109,11 @@ def check_principal(run, A, fn_qual, rule='R-SEL', min_sites=1, label=None):
         what = 'eigenvector' if 1 in comps else 'eigenvalue'
         if ch[0] == 'const':
             ok = ch[1] == -1 and s['sorted']
-            run.check(ok, rule, f'{short}: principal {what} is the last of the ascending eigh result', where, f'index {ch[1]}',
-                      f'{what} selected with index {ch[1]} on the last axis; eigh returns eigenvalues in ascending order, the principal pair is index -1',
+            why = f'{what} selected with index {ch[1]} on the last axis; eigh returns eigenvalues in ascending order, the principal pair is index -1'
+            if ch[1] == -1 and not s['sorted']:
+                why = (f'{what} selected with the fixed index -1 although the decomposition may come from an unordered solver (eig): '
+                       f'the last eigenpair is then arbitrary; select by arg-max of the eigenvalues')
+            run.check(ok, rule, f'{short}: principal {what} is the last of the ascending eigh result', where, f'index {ch[1]}', why,
                       construct=f'{rule}::{fn_qual}::{what}-index')
         elif ch[0] == 'argmax':
             arg = call_arg(ch[1], 0)
